@@ -1333,6 +1333,10 @@ M('C16', 'original defect: Lanczos keeps the rebuilt vectors in the cache for th
   "        self._cache = []  # drop the vectors of a previous run() (left by the rebuild for N_cache < N)\n", "",
   'KRYLOV-cache-reset')
 
+M('C02', 'original defect: get_block(insert=True) appends to the shared _data list', NPC,
+  "                self._data = self._data + [res]  # not append: a shallow copy shares the list\n", "                self._data.append(res)\n",
+  'COUPLED-shared-list')
+
 # ---------------------------------------------------------------- C16 / C19
 M('C16', 'GMRES restart: relative residual norm used for normalisation (round-3 seed b)', KRY,
   """        self.total_error.append([npc.norm(self.rs[-1]) / self.b_norm])
